@@ -293,6 +293,18 @@ func c15Run(e *core.Env) {
 		}
 		raceTier(e, core.Pick(e, 2, 8), "C15", "big-infer")
 	}
+	if e.Take() {
+		// training data in a file that two other files include (a tie that one more copy
+		// of that file would break): the same choice under every loader schedule
+		files := map[string]string{
+			"train.knut":  "2020-01-01 open Assets:A\ninclude \"t1.knut\"\ninclude \"t2.knut\"\n",
+			"t1.knut":     "include \"shared.knut\"\n2020-01-02 \"shop\"\nAssets:A Expenses:Alpha 5 CHF\n\n2020-01-03 \"shop\"\nAssets:A Expenses:Alpha 5 CHF\n\n",
+			"t2.knut":     "include \"shared.knut\"\n2020-01-04 \"shop\"\nAssets:A Expenses:Zeta 5 CHF\n\n",
+			"shared.knut": "2020-01-05 \"shop\"\nAssets:A Expenses:Zeta 5 CHF\n\n",
+			"target.knut": "2020-02-01 \"shop\"\nAssets:A Expenses:TBD 5 CHF\n\n",
+		}
+		diamondSchedules(e, drv, "C15", "training", files, []string{"infer", "-t", "train.knut", "target.knut"}, []string{"Expenses:Alpha"}, 1)
+	}
 	for _, ph := range []string{"Expenses:TBD", "Assets:X"} {
 		trainings, targets := c15Training(ph), c15Targets(ph)
 		e.Note("placeholder %s: %d training journals x %d target journals", ph, len(trainings), len(targets))
